@@ -77,6 +77,8 @@ def _do_actions(chart, acts, i):
             chart.scribble(a[1])
         elif op == "mark":
             pass
+        elif op == "current_state":
+            chart.current_state()       # a handler asking where the chart is (a reflection pass through the leaf state)
         elif op == "raise":
             raise {"IndexError": IndexError, "KeyError": KeyError, "RuntimeError": RuntimeError}[a[1]]("raised by the handler")
         elif op == "call":
